@@ -6,6 +6,7 @@ import (
 	"go/token"
 	"go/types"
 	"sort"
+	"strings"
 
 	"golang.org/x/tools/go/ssa"
 )
@@ -346,6 +347,14 @@ func (in *Inst) scanLoop(lp *Loop) *modSet {
 		switch a := addr.(type) {
 		case *ssa.FieldAddr:
 			T := a.X.Type().Underlying().(*types.Pointer).Elem()
+			if bv, ok := in.vals[a.X]; ok && bv.K == KLocalObj {
+				in.markLocalObj(m, in.e.localFieldAddr(bv, T, a.Field), T.Underlying().(*types.Struct).Field(a.Field).Type())
+				return
+			}
+			if _, isLocal := in.localObjRoot(a.X); isLocal {
+				m.all = true // store into a local object allocated inside the loop
+				return
+			}
 			name, ft := in.e.fieldComp(T, a.Field)
 			switch ft.Underlying().(type) {
 			case *types.Struct, *types.Array:
@@ -419,6 +428,10 @@ func (in *Inst) scanLoop(lp *Loop) *modSet {
 		for _, ins := range b.Instrs {
 			switch x := ins.(type) {
 			case *ssa.Store:
+				if bv, ok := in.vals[x.Addr]; ok && bv.K == KLocalObj {
+					in.markLocalObj(m, bv, x.Val.Type())
+					continue
+				}
 				scanStoreAddr(x.Addr)
 			case *ssa.Alloc, *ssa.MakeSlice, *ssa.MakeClosure, *ssa.MakeMap, *ssa.MakeChan:
 				m.comps["alloc"] = true
@@ -448,6 +461,30 @@ func (in *Inst) scanLoop(lp *Loop) *modSet {
 			}
 		}
 	}
+	// ghost updates attached to call sites (ghostset clauses of the function under contract) that
+	// can occur inside this loop
+	if top := in.e.top; top != nil && top.con != nil && len(top.con.Ghosts) > 0 {
+		names := map[string]bool{}
+		seen := map[*ssa.Function]bool{}
+		for _, b := range sortBlocks(lp.blocks) {
+			collectCallNames(b.Instrs, names, seen, 0)
+		}
+		for _, gu := range top.con.Ghosts {
+			if !names[gu.Callee] {
+				continue
+			}
+			switch l := gu.Lhs.(type) {
+			case *ast.Ident:
+				m.comps["g:"+l.Name] = true
+			case *ast.SelectorExpr:
+				for k := range in.e.W.ghosts {
+					if strings.HasSuffix(k, "."+l.Sel.Name) && strings.Count(k, ".") == 2 {
+						m.comps["gf:"+k] = true
+					}
+				}
+			}
+		}
+	}
 	if lp.spec != nil && len(lp.spec.Modifies) > 0 {
 		// user-declared loop frame replaces the inferred memory targets; checked at stores
 		in.e.fail("loop modifies clauses are not supported yet")
@@ -461,6 +498,39 @@ func (in *Inst) scanLoop(lp *Loop) *modSet {
 	}
 	sort.Strings(m.memArrs)
 	return m
+}
+
+func (in *Inst) markLocalObj(m *modSet, p Val, t types.Type) {
+	if p.K == KPtrField {
+		m.comps[p.F] = true
+		return
+	}
+	if stt, ok := t.Underlying().(*types.Struct); ok && p.K == KLocalObj {
+		for i := 0; i < stt.NumFields(); i++ {
+			in.markLocalObj(m, in.e.localFieldAddr(p, t, i), stt.Field(i).Type())
+		}
+	}
+}
+
+// localObjRoot: is v (syntactically) an address inside a struct Alloc?
+func (in *Inst) localObjRoot(v ssa.Value) (*ssa.Alloc, bool) {
+	for i := 0; i < 6; i++ {
+		switch x := v.(type) {
+		case *ssa.Alloc:
+			if _, ok := x.Type().Underlying().(*types.Pointer).Elem().Underlying().(*types.Struct); ok {
+				if vv, have := in.vals[x]; have && vv.K != KLocalObj {
+					return nil, false
+				}
+				return x, !in.escapesObj(x, x.Type().Underlying().(*types.Pointer).Elem())
+			}
+			return nil, false
+		case *ssa.FieldAddr:
+			v = x.X
+		default:
+			return nil, false
+		}
+	}
+	return nil, false
 }
 
 func (in *Inst) markStructComps(m *modSet, t types.Type) {
@@ -872,3 +942,34 @@ func incOf(v ssa.Value, phi *ssa.Phi, depth int) (int64, bool) {
 
 // checkFrameStore: placeholder for user-declared loop frames.
 func (in *Inst) checkFrameStore(p Val, pos token.Pos, st *State) {}
+
+// collectCallNames: names of all calls in the instructions and, transitively, in module callees and closures.
+func collectCallNames(instrs []ssa.Instruction, names map[string]bool, seen map[*ssa.Function]bool, depth int) {
+	for _, ins := range instrs {
+		var c *ssa.CallCommon
+		switch x := ins.(type) {
+		case *ssa.Call:
+			c = &x.Call
+		case *ssa.Defer:
+			c = &x.Call
+		case *ssa.MakeClosure:
+			fn := x.Fn.(*ssa.Function)
+			if !seen[fn] && depth < 7 {
+				seen[fn] = true
+				for _, b := range fn.Blocks {
+					collectCallNames(b.Instrs, names, seen, depth+1)
+				}
+			}
+			continue
+		default:
+			continue
+		}
+		names[calleeName(c)] = true
+		if cal := c.StaticCallee(); cal != nil && !seen[cal] && depth < 7 && cal.Pkg != nil && strings.HasPrefix(cal.Pkg.Pkg.Path(), "github.com/cloudwego/hertz") {
+			seen[cal] = true
+			for _, b := range cal.Blocks {
+				collectCallNames(b.Instrs, names, seen, depth+1)
+			}
+		}
+	}
+}
